@@ -28,6 +28,8 @@ type TSA struct {
 	// Skew is added to the simulated clock to obtain the TSA's genTime.
 	Skew     time.Duration
 	Accuracy int // seconds; 0 = absent (the baseline policy then implies 1 s)
+	// AccuracyMillis adds milliseconds to the accuracy
+	AccuracyMillis int
 	// WrongImprint makes the token cover another message (a countersignature replayed from another envelope).
 	WrongImprint bool
 	Serial       int64
@@ -155,8 +157,8 @@ func (t *TSA) Token(imprint tspclient.MessageImprint, nonce *big.Int, certReq bo
 		GenTime:        time.Now().Add(t.Skew).UTC().Truncate(time.Second),
 		Nonce:          nonce,
 	}
-	if t.Accuracy > 0 {
-		info.Accuracy = tspclient.Accuracy{Seconds: t.Accuracy}
+	if t.Accuracy > 0 || t.AccuracyMillis > 0 {
+		info.Accuracy = tspclient.Accuracy{Seconds: t.Accuracy, Milliseconds: t.AccuracyMillis}
 	}
 	infoDER, err := asn1.Marshal(info)
 	if err != nil {
